@@ -8,13 +8,15 @@ gen = os.path.join(V, "coq", "Gen")
 out = ["(* Reference fingerprints: the translator's output on the reviewed tree",
        "   (pinned commit + the fix: commits listed in known_findings.json).",
        "   Regenerate with tools/update_refs.py after review; never at check time. *)",
-       "From Coq Require Import List String.", "From NR Require Import Model.Skeleton.",
+       "From Coq Require Import List String.", "From NR Require Import Model.Skeleton Model.Pool.",
        "Import ListNotations.", "Open Scope string_scope.", ""]
 for fn in sorted(os.listdir(gen)):
     if not fn.startswith("Skeleton_") or not fn.endswith(".v"):
         continue
     src = open(os.path.join(gen, fn)).read()
     for m in re.finditer(r"Definition (\w+) : ([^\n]+) :=\n  (.*?)\.\n\n", src, re.S):
+        if fn == "Skeleton_pool.v" and m.group(1) in ("pool_borrowers", "pool_acquirers", "pool_unsupported"):
+            continue
         out.append("Definition %s_ref : %s :=\n  %s.\n" % (m.group(1), m.group(2), m.group(3)))
 open(os.path.join(V, "coq", "Model", "RefSkeletons.v"), "w").write("\n".join(out))
 print("written")
